@@ -1,12 +1,24 @@
 """C18 — PCM byte codecs: chunks.struct / chunks.array and WavStream.
 
-Tie: (a) `chunks.<strategy>` for formats b h i f d x byte orders (omitted, None, "@", "=", "<", ">",
-"!") x sizes x lengths, bytes compared exactly with the Lean model of that strategy, with the
-Lean specification (packed padded sequence cut every `size` items) and with Python's own
-`struct.pack` of the padded sequence; (b) WAV files written with the standard `wave` module
-(8/16/24/32 bit x mono/stereo x extremes of each width) read back through `WavStream` (keep
-True/False), values compared exactly (normalised values are exact dyadic floats), header
-attributes and the open/closed state of the file after k `next()` calls; (c) "concurrent" cases:
+Tie: (a) `chunks.<strategy>` (and the StrategyDict `chunks` itself) for formats b h i f d and the other
+integer formats of the struct table (B H I l L q Q) x byte orders (omitted, None, "@", "=", "<", ">",
+"!") x sizes x lengths x value spellings (int, float, bool, Fraction) x call shapes (keywords,
+positionals, mixed, defaults omitted: size -> chunks.size, dfmt -> "f", padval -> 0.) x sources (list,
+tuple, iterator, Stream, generator, ENDLESS generator with the number of items pulled), bytes compared
+exactly with the Lean model of that strategy, with the Lean specification (packed padded sequence cut
+every `size` items) and with Python's own `struct.pack` of the padded sequence; (b) WAV files written
+with the standard `wave` module AND by the harness' own RIFF writer (extra chunks such as LIST before /
+between / after fmt and data, odd sizes, WAVE_FORMAT_EXTENSIBLE, header bits that are no PCM width,
+declared data / RIFF sizes that lie, files the reader must refuse) read back through `WavStream` (keep
+True/False): the Lean RIFF reader (`parseRiff`) is given the BYTES OF THE FILE and must find rate,
+channels, bits and the data chunk itself; values compared exactly (normalised values are exact dyadic
+floats), header attributes and the open/closed state of the file after k `next()` calls; (c) "res"
+cases (c18_res.py): the file life-cycle on REAL handles -- the file handed over as str / bytes /
+path-like name, as a buffered or raw OS file object of the caller, or as BytesIO; a history of `next()`
+calls and collections of the stream object; after the constructor and after every event the
+descriptors of the process on the file (/proc/self/fd), every file object `builtins.open` created on
+the path (open flag, number of close() calls), ResourceWarnings, the caller's own handles and getfp()
+are compared with the Lean state machine `rTrace`; (d) "concurrent" cases:
 2-3 chunk generators and/or WavStreams alive at once, advanced by `next()` in the interleaving
 given by the case (a schedule list), including re-entrant use (the source iterable of one chunk
 generator advances another generator when asked for its k-th item, i.e. while the first one is
@@ -17,31 +29,52 @@ arguments only, whatever else is alive.  Yielded chunks are also re-read at the 
 (a chunk that changes after it was yielded is a violation: `b"".join(chunks(...))` reads them late).
 """
 import hashlib, io, itertools, json, os, struct, sys, tempfile, wave
+from fractions import Fraction
 import common
 from common import enc, err_kind
+from props import c18_res
 
 ID = "C18"
-RULE = ("chunks: exhaustive grid (format x byte-order spelling x size 1..9 x length 0..20 x strategy) with "
-        "range extremes among the values, plus random larger cases and a small malformed stream (value out "
-        "of range, float into an integer format, default float pad with integer formats); wav: every width x "
-        "channel count x keep x 0..6 frames of extreme values, plus random files up to 40 frames and truncated "
-        "files; concurrent: a grid (strategy pair x format x size 2..4 x every position of the re-entrant "
+RULE = ("chunks: exhaustive grid (format b h i f d x byte-order spelling x size 1..9 x length 0..20 x strategy) and a "
+        "second grid over B H I l L q Q, range extremes among the values, plus random larger cases (value spellings "
+        "int/float/bool/Fraction, call shapes keyword/positional/mixed/StrategyDict entry, defaults omitted, sources "
+        "list/tuple/iterator/Stream/counted generator/endless generator) and a malformed stream (value out of range, "
+        "float or Fraction into an integer format, default float pad with integer formats); wav: every width x "
+        "channel count x keep x 0..6 frames of extreme values, random files up to 40 frames, truncated files, and "
+        "files of the harness' own RIFF writer (extra chunks, odd sizes, extensible format, header bits 1..64, lying "
+        "sizes, refused files) parsed by the Lean RIFF reader; res: a grid (6 ways of handing the file over x width x "
+        "channels x keep x 0/1/3 frames x 9 event histories x 2 observers) plus constructor failures, truncated "
+        "files and random histories of next()/collect events; concurrent: a grid (strategy pair x format x size 2..4 "
+        "x every position of the re-entrant "
         "advance x length of the other generator) plus random groups of 2-3 generators (same / different "
         "strategy, dfmt, size, byte order; WavStreams over the same / different files) with random schedules, "
         "re-entrant sources, re-chunking pipelines, partial consumption and malformed members; "
-        "non-trivial = at least one item in the input sequence / one sample in the file (concurrent: in some "
-        "generator); distinct = distinct JSON case")
+        "non-trivial = at least one item in the input sequence / one sample in the file / one event in the history "
+        "(concurrent: in some generator); distinct = distinct JSON case")
 TRUSTED = [
     "hand-written Lean model ALV/Model/C18.lean of lazy_io.chunks (struct and array strategies) and "
     "lazy_wav.WavStream (modelled, not verified: struct.Struct, array.array, wave.Wave_read.readframes, "
     "generator protocol, try/finally)",
     "IEEE-754 encoders of the formats f and d are abstract in the theorems (parameter `le`, hypothesis "
     "dec (enc x) = x for the round trip); the driver instantiates them with Lean's Float.toBits / "
-    "Float.toFloat32 and the tie compares their bytes with Python's struct on every generated float",
+    "Float.toFloat32 and the tie compares their bytes with Python's struct on every generated float; a Fraction is "
+    "sent with the double Python's float() makes of it",
     "the model of chunks.array includes the repair proposed for D5 (tobytes, byteswap when the requested "
     "order is not native, zero-initialised working array); the unrepaired code cannot satisfy the property",
-    "the byte layout of the PCM files is produced by the standard `wave` module from bytes built by "
-    "int.to_bytes in this harness; the Lean spec's pcmData is compared with those bytes on every case",
+    "file life-cycle (ALV/Model/C18Res.lean): a hand-written state machine of wave.open / Wave_read.close / "
+    "Wave_read.__del__ / the try-finally of block_reader / CPython's finalisation of a suspended generator and of "
+    "an unreferenced file object; the theorems are about that machine, the tie compares every state of it with "
+    "the real process: descriptors listed in /proc/self/fd, file objects created through a patched builtins.open "
+    "(a BufferedReader subclass counting close() calls, kept alive by the harness, so 'abandoned' = still open "
+    "when the stream object is gone) or, unpatched, the ResourceWarnings; 'collect' is `del` + gc.collect() "
+    "(WavStream sits in a reference cycle: dropping the last reference alone closes nothing -- tallied, not demanded)",
+    "RIFF container (ALV/Model/C18Riff.lean): hand-written model of Wave_read.initfp / _Chunk (not proved against "
+    "a specification of RIFF beyond the small theorems C18.27-28; riff_parse_build_PENDING is stated, not proved); "
+    "it is run by the driver on the bytes of every file of the res cases and of the own-writer wav cases and must "
+    "agree with the real wave module on header fields, data chunk and the exception class of a refused file",
+    "the byte layout of the PCM files is produced by the standard `wave` module (or the harness' RIFF writer, "
+    "checked equal to it on plain files) from bytes built by int.to_bytes in this harness; the Lean spec's "
+    "pcmData is compared with those bytes on every case",
     "isolation of generators: in the Lean model chunksStruct / chunksArray / wavStream are pure functions of "
     "one call's arguments, so 'the output depends only on the generator's own arguments, whatever other "
     "generators are alive or interleaved' holds there by construction (no theorem is needed or stated); for "
@@ -53,33 +86,55 @@ TRUSTED = [
 ASSUMPTIONS = [
     "size >= 1; values representable in the format (integers in range, doubles within the float32 range "
     "for 'f'); other inputs only in the malformed stream, where the exception class is compared",
-    "WAV files are well-formed PCM (data length a multiple of the frame size), 1 or 2 channels, 8/16/24/32 "
-    "bits; truncated files are compared with the model only",
-    "native byte order of the machine is read from sys.byteorder and passed to the model",
+    "WAV files inside the property: well-formed PCM (data length a multiple of the frame size), 1 or 2 channels, "
+    "8/16/24/32 bits, any extra chunks; truncated files, lying sizes, other header widths (rounded up to whole "
+    "bytes; no unpacker beyond 32 bits: KeyError and the file stays open until the stream object is collected), "
+    "more channels and refused files are compared with the model only",
+    "formats l / L under a standard-size prefix (4 bytes for struct, the machine's long in an array: the strategies "
+    "differ, as the docstring warns) are outside the property's formats and compared with the model only",
+    "name kinds: a str is a name; bytes and path-like names are refused by wave.open today (AttributeError, "
+    "nothing opened) -- the tie accepts either 'refused, nothing opened' or 'accepted and then exactly the "
+    "life-cycle of a name'",
+    "native byte order of the machine is read from sys.byteorder, the size of the machine's long from "
+    "struct.calcsize('l'); both are passed to the model; /proc/self/fd lists the descriptors of the process",
 ]
 
 MANIFEST = {
-    "text": ("Lean 4 theorems, for all inputs: two's-complement pack/unpack round trip on the full signed range of "
+    "text": ("Lean 4 theorems, for all inputs: two's-complement and unsigned pack/unpack round trip on the full range of "
              "every width and both byte orders; the 24-bit WAV path sign-extends every three-byte string; WavStream "
              "over any well-formed 8/16/24/32-bit mono/stereo PCM data chunk yields exactly the stored integers "
-             "(keep) or those integers (8 bit: minus 128) / 2^(bits-1), always in [-1,1); the file is closed exactly "
-             "when the end is reached; chunks.struct and chunks.array (repaired as proposed for D5) both equal the "
+             "(keep) or those integers (8 bit: minus 128) / 2^(bits-1), always in [-1,1); bits = 8*ceil(header bits/8); "
+             "file life-cycle as a state machine over the handle table of the process: a stream opened by name owns "
+             "exactly one handle, closed by exactly one close() once a next() returned StopIteration or a decoding "
+             "error (stream object alive) or once the object is collected, never earlier, never abandoned; a handle of "
+             "the caller (file object, BytesIO, anything else open) is never touched; a failing constructor leaves "
+             "nothing open; chunks.struct and chunks.array (repaired as proposed for D5) both equal the "
              "specification 'pack the sequence followed by (-len) mod size pad values, cut every size items' for "
              "every size, length, byte order, machine order and element encoder, including where they stop on an "
-             "unpackable item; tied to /repo by a differential correspondence on every check, which also runs "
-             "groups of 2-3 chunk generators / WavStreams alive at once (interleaved by a schedule, re-entrant "
-             "sources, re-chunking pipelines, same file read twice) and demands of each the output of that call alone"),
+             "unpackable item, and are lazy (one block in, one chunk out); tied to /repo by a differential "
+             "correspondence on every check: bytes of both strategies over the integer and float formats of the "
+             "struct table, spellings, call shapes and sources; a Lean RIFF reader parsing the very file bytes; the "
+             "life-cycle machine against /proc/self/fd, spied file objects and ResourceWarnings; groups of 2-3 chunk "
+             "generators / WavStreams alive at once, each compared with the output of that call alone"),
     "note": ("Trusted: Lean kernel, axioms propext/Classical.choice/Quot.sound, the Python harness; struct, array, "
-             "wave and the IEEE-754 encoders of f/d are not modelled (the theorems take the element encoder as a "
-             "parameter; the driver's Float.toBits / toFloat32 bytes are compared with struct.pack on every float "
-             "case).  chunks.array in /repo is defective today (D5, D5b: known findings with a proposed fix); its "
+             "wave and the IEEE-754 encoders of f/d are not modelled beyond what the hand-written models say (the "
+             "theorems take the element encoder as a parameter; the driver's Float.toBits / toFloat32 bytes are "
+             "compared with struct.pack on every float case).  The resource theorems are about the modelled state "
+             "machine (wave.open, Wave_read.close/__del__, generator finalisation), tied state by state to real "
+             "descriptors.  riff_parse_build_PENDING (every well-formed file is read back exactly) is stated, not "
+             "proved.  chunks.array in /repo was defective (D5, D5b: fixed); its "
              "model is the repaired code.  Independence of a generator from other live generators is true by "
              "construction in the (pure) model and is checked for /repo by single-threaded interleavings only; "
              "races that need a pre-emptive thread switch inside one call are not observable by the tie."),
 }
 
 NATIVE = "<" if sys.byteorder == "little" else ">"
-WIDTH = {"b": 1, "h": 2, "i": 4, "f": 4, "d": 8}
+LONG = struct.calcsize("l")                    # the machine's long (array('l').itemsize; struct 'l' without a std prefix)
+WIDTH = {"b": 1, "h": 2, "i": 4, "f": 4, "d": 8, "B": 1, "H": 2, "I": 4, "q": 8, "Q": 8, "l": 4, "L": 4}
+INTFMT = "bhiBHIqQlL"
+MOREFMT = "BHIqQlL"                            # the other integer formats of the struct table
+ALLFMT = "bhifd" + MOREFMT
+STD_ORDERS = ("=", "<", ">", "!")              # prefixes with standard sizes (l, L are 4 bytes)
 ORDERS = ["omit", None, "@", "=", "<", ">", "!"]
 ORDER_REQ = {"omit": None, None: None, "@": None, "=": None, "<": "<", ">": ">", "!": ">"}
 F32MAX = 3.4028234663852886e38
@@ -91,12 +146,23 @@ def f2j(x):
 
 def j2v(j):
     if isinstance(j, dict):
+        if "b" in j:
+            return bool(j["b"])
+        if "q" in j:
+            return Fraction(j["q"][0], j["q"][1])
         return struct.unpack("<d", struct.pack("<Q", j["f"]))[0]
     return j
 
 
+def frac2j(p, q):
+    """a Fraction as it is spelled, with the double float() makes of it (what the float formats pack)"""
+    return {"q": [p, q], "f": f2j(float(Fraction(p, q)))["f"]}
+
+
 def int_range(fmt):
     b = 8 * WIDTH[fmt]
+    if fmt in "BHIQL":
+        return 0, (1 << b) - 1
     return -(1 << (b - 1)), (1 << (b - 1)) - 1
 
 
@@ -104,13 +170,13 @@ def rand_int(rng, fmt):
     lo, hi = int_range(fmt)
     r = rng.random()
     if r < 0.25:
-        return rng.choice([lo, hi, lo + 1, hi - 1, -1, 0, 1])
+        return max(lo, min(hi, rng.choice([lo, hi, lo + 1, hi - 1, -1, 0, 1])))
     if r < 0.45:
-        k = rng.choice([7, 8, 15, 16, 23, 24, 31])
+        k = rng.choice([7, 8, 15, 16, 23, 24, 31, 32, 63])
         v = rng.choice([1, -1]) * ((1 << k) + rng.choice([-1, 0, 1]))
         return max(lo, min(hi, v))
     if r < 0.7:
-        return rng.randint(-130, 130) if fmt != "b" else rng.randint(lo, hi)
+        return max(lo, min(hi, rng.randint(-130, 130))) if fmt not in "bB" else rng.randint(lo, hi)
     return rng.randint(lo, hi)
 
 
@@ -129,12 +195,21 @@ def rand_float(rng, fmt):
 
 
 def rand_vals(rng, fmt, n):
-    if fmt in "bhi":
-        return [rand_int(rng, fmt) for _ in range(n)]
+    if fmt in INTFMT:
+        out = [rand_int(rng, fmt) for _ in range(n)]
+        for i in range(n):
+            if rng.random() < 0.05:
+                out[i] = {"b": rng.random() < 0.5}       # a bool is an integer (True packs as 1)
+        return out
     out = []
     for _ in range(n):
-        if rng.random() < 0.15:
+        r = rng.random()
+        if r < 0.15:
             out.append(rng.randint(-100, 100))          # ints are accepted by the float formats
+        elif r < 0.19:
+            out.append({"b": rng.random() < 0.5})
+        elif r < 0.27:                                  # a Fraction goes through its float()
+            out.append(frac2j(rng.randint(-1000, 1000), rng.choice([1, 2, 3, 7, 8, 10, 1024, 3 ** 20])))
         else:
             out.append(f2j(rand_float(rng, fmt)))
     return out
@@ -170,12 +245,43 @@ def rand_sample(rng, bits):
     return rng.randint(lo, hi)
 
 
-def wav_case(bits, channels, keep, samples, rate=44100, take=None, route="path", cut=0):
+def wav_case(bits, channels, keep, samples, rate=44100, take=None, route="path", cut=0, riff=None, bad=None):
     c = {"entry": "wav", "bits": bits, "channels": channels, "keep": keep, "samples": samples,
          "rate": rate, "take": take, "route": route}
     if cut:
         c["cut"] = cut
+    if riff:
+        c["riff"] = riff
+    if bad:
+        c["bad"] = bad
     return c
+
+
+RIFF_NAMES = ["LIST", "fact", "cue ", "junk", "bext", "id3 ", "PAD ", "DATA", "fmt_"]
+
+
+def rand_riff(rng, wild=True):
+    """deviations from the plain 44-byte-header file that the wave module itself cannot write"""
+    r = {}
+    for k in ("pre", "mid", "post"):
+        if rng.random() < 0.45:
+            r[k] = [[rng.choice(RIFF_NAMES), rng.choice([0, 1, 2, 3, 4, 7, 26])] for _ in range(rng.choice([1, 1, 2]))]
+    x = rng.random()
+    if x < 0.25:
+        r["ext"] = True                                 # WAVE_FORMAT_EXTENSIBLE, PCM sub-format
+    elif x < 0.5:
+        r["fmt_extra"] = rng.choice([1, 2, 3, 22])
+    if wild:
+        x = rng.random()
+        if x < 0.15:
+            r["data_delta"] = rng.choice([1, 2, 3, 5, 1000])      # more declared than there is
+        elif x < 0.3:
+            r["data_delta"] = -rng.choice([1, 2, 3])              # less declared: the tail is not audio
+        if rng.random() < 0.12:
+            r["riff_delta"] = rng.choice([1, 8, 1000, -1, -2, -8, -20])
+        if rng.random() < 0.1:
+            r["no_data_pad"] = True
+    return r or {"post": [["LIST", 4]]}
 
 
 def generate(rng, tier, scale=1):
@@ -195,6 +301,16 @@ def generate(rng, tier, scale=1):
                         pad = rand_vals(rng, fmt, 1)[0] if rng.random() < 0.7 else (0 if fmt in "bhi" else f2j(0.0))
                         for strategy in ("struct", "array"):
                             cases.append(chunk_case(fmt, order, size, xs, pad, strategy))
+        # the other integer formats of the struct table: every format x byte-order spelling x strategy
+        for fmt in MOREFMT:
+            for order in ORDERS:
+                for size in (1, 2, 3, 4):
+                    for n in sorted({0, 1, size - 1, size, size + 1, 2 * size + 1}):
+                        if quick and (n + size + ORDERS.index(order)) % 2:
+                            continue
+                        for strategy in ("struct", "array"):
+                            cases.append(chunk_case(fmt, order, size, rand_vals(rng, fmt, n), rand_vals(rng, fmt, 1)[0],
+                                                    strategy))
         # sizes at the limits of the formats (array fill) and the default-size route
         for size in (127, 128, 129, 200, 2048):
             for strategy in ("struct", "array"):
@@ -202,9 +318,9 @@ def generate(rng, tier, scale=1):
                 cases.append(chunk_case("h", ">", size, rand_vals(rng, "h", size + 1), -2, strategy))
         if not quick:
             cases.append(chunk_case("h", "<", 32769, [1, 2, 3], 0, "array"))
-    nrand = (700 if quick else 12000) * scale
+    nrand = (1500 if quick else 12000) * scale
     for _ in range(nrand):
-        fmt = rng.choice("bhifd")
+        fmt = rng.choice("bhifd" if rng.random() < 0.6 else MOREFMT)
         size = rng.choice([1, 2, 3, rng.randint(1, 9), rng.randint(1, 40)])
         n = max(0, rng.choice([0, size - 1, size, size + 1, 2 * size, 3 * size - 1, rng.randint(0, 60)]))
         xs = rand_vals(rng, fmt, n)
@@ -216,25 +332,35 @@ def generate(rng, tier, scale=1):
         if fmt in "fd" and rng.random() < 0.15:
             pad = f2j(0.0)
             kw["pad_route"] = "default"               # padval omitted -> 0.
-        if rng.random() < 0.3:
-            kw["seq_route"] = rng.choice(["iter", "stream", "tuple"])
-        cases.append(chunk_case(fmt, rng.choice(ORDERS), size, xs, pad, rng.choice(["struct", "array"]), **kw))
+        if rng.random() < 0.4:
+            kw["seq_route"] = rng.choice(["iter", "stream", "tuple", "gen", "endless", "endless"])
+            if kw["seq_route"] == "endless":           # an endless source: only whole chunks are ever asked for
+                xs = (xs + rand_vals(rng, fmt, size))[: max(1, len(xs) // size) * size]
+        if fmt == "f" and rng.random() < 0.3:
+            kw["dfmt_route"] = "default"               # dfmt omitted -> "f"
+        kw["shape"] = rng.choice(["kw", "kw", "pos", "mixed", "entry"])
+        strategy = rng.choice(["struct", "array"])
+        cases.append(chunk_case(fmt, rng.choice(ORDERS), size, xs, pad, strategy, **kw))
     # malformed stream
     for _ in range((60 if quick else 600) * scale):
-        fmt = rng.choice("bhi")
+        fmt = rng.choice("bhi" + MOREFMT)
         size = rng.randint(1, 6)
         n = rng.randint(0, 14)
         xs = rand_vals(rng, fmt, n)
         pad = rand_vals(rng, fmt, 1)[0]
-        kind = rng.choice(["range", "float-item", "float-pad", "default-pad"])
+        kind = rng.choice(["range", "float-item", "float-pad", "default-pad", "frac-item", "frac-pad"])
         lo, hi = int_range(fmt)
         kw = {"malformed": kind}
         if kind == "range" and n:
-            xs[rng.randrange(n)] = rng.choice([hi + 1, lo - 1, hi + rng.randint(1, 1000), 1 << 40])
+            xs[rng.randrange(n)] = rng.choice([hi + 1, lo - 1, hi + rng.randint(1, 1000), 1 << 40, 1 << 64, -(1 << 63) - 1])
         elif kind == "float-item" and n:
             xs[rng.randrange(n)] = f2j(rng.choice([0.0, 1.5, -2.0]))
         elif kind == "float-pad":
             pad = f2j(rng.choice([0.0, 1.0]))
+        elif kind == "frac-item" and n:
+            xs[rng.randrange(n)] = frac2j(rng.choice([3, 1, 0]), rng.choice([1, 2]))     # even an integral Fraction
+        elif kind == "frac-pad":
+            pad = frac2j(rng.choice([0, 1]), 1)
         else:
             pad = f2j(0.0)
             kw["pad_route"] = "default"
@@ -282,7 +408,34 @@ def generate(rng, tier, scale=1):
         samples = [rand_sample(rng, bits) for _ in range(nf * channels)]
         cut = rng.randint(1, bits // 8 * channels - 1)
         cases.append(wav_case(bits, channels, rng.random() < 0.5, samples, cut=cut))
+    # files the wave module cannot write: extra chunks (LIST ...) around fmt / data, odd sizes, the extensible
+    # format, header bits that are no multiple of 8 or no PCM width, declared sizes that lie, refused files
+    if scale == 1:
+        for bits in (8, 16, 24, 32):
+            for channels in (1, 2):
+                for k, riff in enumerate(({"pre": [["LIST", 3]]}, {"mid": [["fact", 4]], "post": [["LIST", 7]]},
+                                          {"ext": True}, {"fmt_extra": 2}, {"post": [["id3 ", 1]], "no_data_pad": True})):
+                    for nf in (0, 1, 3):
+                        lo, hi = wav_range(bits)
+                        samples = [[lo, hi, 1, hi - 1, lo + 1, 0][i % 6] for i in range(nf * channels)]
+                        cases.append(wav_case(bits, channels, (k + nf) % 2 == 0, samples, riff=riff,
+                                              route=("path", "fileobj", "wave")[(k + nf) % 3]))
+        for bad in c18_res.BADS:
+            cases.append(wav_case(16, 1, True, [1, 2], bad=bad))
+    for _ in range((700 if quick else 4000) * scale):
+        r = rng.random()
+        bits = rng.choice([8, 16, 24, 32]) if r < 0.8 else rng.choice([1, 4, 7, 9, 12, 15, 17, 20, 23, 25, 31, 33, 40, 64])
+        channels = rng.choice([1, 2]) if rng.random() < 0.9 else rng.choice([3, 4])
+        nf = rng.choice([0, 1, 2, rng.randint(0, 12)])
+        samples = [rand_sample(rng, 8 * ((bits + 7) // 8)) if (bits + 7) // 8 <= 4 else rng.randint(-2 ** 39, 2 ** 39 - 1)
+                   for _ in range(nf * channels)]
+        take = None if rng.random() < 0.7 else rng.randint(0, len(samples) + 2)
+        cases.append(wav_case(bits, channels, rng.random() < 0.5, samples, take=take,
+                              rate=rng.choice([8000, 44100, 1, rng.randint(1, 2 ** 32 - 1)]),
+                              route=rng.choice(["path", "fileobj", "wave"]), riff=rand_riff(rng, wild=rng.random() < 0.5),
+                              bad=rng.choice(c18_res.BADS) if rng.random() < 0.06 else None))
     cases.extend(generate_conc(rng, tier, scale))
+    cases.extend(generate_res(rng, tier, scale))
     return cases
 
 
@@ -308,7 +461,10 @@ def _kind(e):
 
 
 def wav_file_bytes(c):
-    """the complete RIFF file, produced by the standard wave module"""
+    """the complete RIFF file, produced by the standard wave module (or, for the variants the wave module
+    cannot write, by the harness' own writer)"""
+    if c.get("riff") or c.get("bad"):
+        return c18_res.riff_bytes(c)
     buf = io.BytesIO()
     w = wave.open(buf, "wb")
     w.setnchannels(c["channels"])
@@ -373,26 +529,61 @@ def impl_wav(c):
     return obs
 
 
+class _Counted(object):
+    """an iterable that counts what was pulled from it; endless: `xs` then its last item for ever"""
+    def __init__(self, xs, endless):
+        self.xs, self.endless, self.pulled = xs, endless, 0
+
+    def __iter__(self):
+        for x in self.xs:
+            self.pulled += 1
+            yield x
+        while self.endless:
+            self.pulled += 1
+            yield self.xs[-1] if self.xs else 0
+
+
 def impl_chunks(c):
     from audiolazy import chunks, Stream
     f = chunks.struct if c["strategy"] == "struct" else chunks.array
+    shape = c.get("shape", "kw")
+    if shape == "entry" and c["strategy"] == "struct" and getattr(chunks, "default", None) is chunks.struct:
+        f = chunks                                   # the StrategyDict itself: its default strategy
     xs = [j2v(x) for x in c["xs"]]
     sr = c.get("seq_route")
-    seq = iter(xs) if sr == "iter" else Stream(xs) if sr == "stream" else tuple(xs) if sr == "tuple" else xs
-    kw = {"dfmt": c["fmt"]}
+    counted = None
+    if sr in ("gen", "endless"):
+        counted = _Counted(xs, sr == "endless")
+        seq = iter(counted)
+    else:
+        seq = iter(xs) if sr == "iter" else Stream(xs) if sr == "stream" else tuple(xs) if sr == "tuple" else xs
+    given = {}
+    if c.get("dfmt_route") != "default":
+        given["dfmt"] = c["fmt"]
     if c["order"] != "omit":
-        kw["byte_order"] = c["order"]
+        given["byte_order"] = c["order"]
     if c.get("pad_route") != "default":
-        kw["padval"] = j2v(c["pad"])
+        given["padval"] = j2v(c["pad"])
     old = chunks.size
     out, raw, err, msg = [], [], None, None
     try:
         if c.get("size_route") == "default":
             chunks.size = c["size"]
         else:
-            kw["size"] = c["size"]
+            given["size"] = c["size"]
+        # call shape: keywords / as many positionals as the given parameters allow / the first one positional
+        names = ["size", "dfmt", "byte_order", "padval"]
+        npos = 0
+        if shape in ("pos", "mixed"):
+            while npos < len(names) and names[npos] in given and (shape == "pos" or npos < 1):
+                npos += 1
+        args = [given[k] for k in names[:npos]]
+        kw = {k: v for k, v in given.items() if k not in names[:npos]}
         try:
-            for ch in f(seq, **kw):
+            g = f(seq, *args, **kw)
+            if sr == "endless":
+                g = itertools.islice(g, len(xs) // c["size"])
+            for ch in g:
                 raw.append(ch)
                 out.append(list(bytes(ch)))
         except Exception as e:
@@ -401,21 +592,36 @@ def impl_chunks(c):
         chunks.size = old
     # the chunks are read again once the generator is finished (what b"".join(chunks(...)) sees)
     aliased = any(list(bytes(r)) != o for r, o in zip(raw, out))
-    return {"out": out, "err": err, "msg": msg, "aliased": aliased}
+    o = {"out": out, "err": err, "msg": msg, "aliased": aliased}
+    if counted is not None:
+        o["pulled"] = counted.pulled
+    return o
 
 
 def impl(c):
     if c["entry"] == "conc":
         return impl_conc(c)
+    if c["entry"] == "res":
+        return c18_res.impl_res(c, _tmpdir(), _kind, enc)
     return impl_wav(c) if c["entry"] == "wav" else impl_chunks(c)
 
 
 def request(c):
     if c["entry"] == "conc":
         return {"entry": "conc", "gens": [request(conc_single(c, i)) for i in range(len(c["gens"]))]}
+    if c["entry"] == "res":
+        return request_res(c)
     if c["entry"] == "chunks":
         return {"entry": "chunks", "fmt": c["fmt"], "native": NATIVE, "order": ORDER_REQ[c["order"]],
+                "std": c["order"] in STD_ORDERS, "long": LONG,
                 "size": c["size"], "pad": c["pad"], "xs": c["xs"]}
+    if c.get("riff") or c.get("bad"):
+        # the Lean RIFF reader gets the bytes of the file and finds header and data chunk itself
+        r = {"entry": "wav", "bits": c["bits"], "keep": c["keep"], "take": c.get("take"),
+             "file": list(c18_res.riff_bytes(c))}
+        if c18_res.in_property(c):
+            r["samples"] = c["samples"]
+        return r
     data = pcm_bytes(c["bits"], c["samples"])
     if c.get("cut"):
         data = data[: -c["cut"]]
@@ -444,6 +650,8 @@ def compare(c, io_, drv):
     out = []
     if c["entry"] == "conc":
         return compare_conc(c, io_, drv)
+    if c["entry"] == "res":
+        return c18_res.compare_res(c, io_, drv, enc, common.dec)
     if c["entry"] == "chunks":
         if io_.get("aliased"):
             out.append(("spec", "a chunk of chunks.%s changed after it was yielded (the generator reuses the "
@@ -458,19 +666,28 @@ def compare(c, io_, drv):
                 c["strategy"], _s(io_["out"]), io_["err"], _s(sp["out"]), sp["err"])))
         elif sp["err"] is None:
             # the property in its own words, against Python's struct
-            w = WIDTH[c["fmt"]]
+            w = drv["width"] if c["strategy"] == "struct" else drv["awidth"]
             flat = bytes(b for ch in io_["out"] for b in ch)
-            ref = python_pack(c)
+            # l / L under a standard-size prefix: 4 bytes for struct, the machine's long in an array (the
+            # docstring's "dfmt symbols for arrays might differ"): outside the property's formats, model only
+            ref = python_pack(c) if drv["width"] == drv["awidth"] else None
+            if "pulled" in io_ and io_["pulled"] != len(c["xs"]) + (0 if c.get("seq_route") == "endless" else 0):
+                out.append(("model", "the generator pulled %d items from its source for %d chunks of %d" % (
+                    io_["pulled"], len(io_["out"]), c["size"])))
             if any(len(ch) != c["size"] * w for ch in io_["out"]):
                 out.append(("spec", "a chunk is not size*width bytes"))
             elif ref is not None and flat != ref:
                 out.append(("spec", "concatenated chunks differ from struct.pack of the padded sequence"))
-            elif ref is None and not c.get("malformed") and c["strategy"] == "struct":
+            elif ref is None and not c.get("malformed") and c["strategy"] == "struct" and drv["width"] == drv["awidth"]:
                 out.append(("spec", "struct refuses the padded sequence but chunks succeeded"))
         return out
     # wav
-    if "out" not in io_:
-        return [("model", "WavStream could not be opened: " + io_["err"]), ("spec", "open failed")]
+    if "open_err" in drv or "out" not in io_:
+        a, b = io_.get("err") if "out" not in io_ else None, drv.get("open_err")
+        if a == ("open:" + b if b else None):
+            return []
+        return [("model", "opening the file: impl=%s, the Lean RIFF reader=%s" % (a, b))] + (
+            [("spec", "a well-formed file could not be opened")] if c18_res.in_property(c) else [])
     m = drv["model"]
     take = c.get("take")
     mo = m["out"] if take is None else m["out"][:take]
@@ -526,6 +743,8 @@ def _s(x, n=160):
 def nontrivial(c, io_):
     if c["entry"] == "conc":
         return len(c["gens"]) >= 2 and any(nontrivial(conc_single(c, i), None) for i in range(len(c["gens"])))
+    if c["entry"] == "res":
+        return bool(c["events"])
     return bool(c["xs"]) if c["entry"] == "chunks" else bool(c["samples"])
 
 
@@ -533,6 +752,8 @@ def tally(eng, c, io_):
     eng.count("entry", c["entry"])
     if c["entry"] == "conc":
         return tally_conc(eng, c, io_)
+    if c["entry"] == "res":
+        return tally_res(eng, c, io_)
     if c["entry"] == "chunks":
         eng.count("chunks.strategy", c["strategy"])
         eng.count("chunks.fmt", c["fmt"])
@@ -543,11 +764,20 @@ def tally(eng, c, io_):
         eng.count("chunks.n_chunks", min(len(io_.get("out", [])), 8))
         eng.count("chunks.impl_err", str(io_.get("err")))
         eng.count("chunks.regime", "malformed:" + c["malformed"] if c.get("malformed") else
-                  ("int-exact" if c["fmt"] in "bhi" else "ieee-bytes-exact"))
-        for k in ("size_route", "pad_route", "seq_route"):
+                  ("int-exact" if c["fmt"] in INTFMT else "ieee-bytes-exact"))
+        for k in ("size_route", "pad_route", "seq_route", "dfmt_route"):
             if c.get(k):
                 eng.count("chunks.route", k + "=" + c[k])
-        if c["fmt"] in "bhi":
+        eng.count("chunks.call_shape", c.get("shape", "kw"))
+        sp = {"int": 0, "float": 0, "bool": 0, "Fraction": 0}
+        for v in list(c["xs"]) + [c["pad"]]:
+            sp["int" if isinstance(v, int) else "bool" if "b" in v else "Fraction" if "q" in v else "float"] += 1
+        for k, v in sp.items():
+            if v:
+                eng.count("chunks.value_spelling(cases having)", k)
+        eng.count("chunks.long_format_width", "n/a" if c["fmt"] not in "lL" else
+                  "std-prefix:struct4/array%d" % LONG if c["order"] in STD_ORDERS else "native:%d" % LONG)
+        if c["fmt"] in INTFMT:
             lo, hi = int_range(c["fmt"])
             vs = [v for v in c["xs"] if isinstance(v, int)]
             eng.count("chunks.has_extreme", bool(vs) and (lo in vs or hi in vs))
@@ -567,6 +797,14 @@ def tally(eng, c, io_):
         eng.count("wav.has_negative", any(s < 0 for s in c["samples"]))
         eng.count("wav.truncated", bool(c.get("cut")))
         eng.count("wav.malformed", "truncated" if c.get("cut") else "channels>2" if c["channels"] > 2 else "no")
+        r = c.get("riff") or {}
+        eng.count("wav.writer", "own RIFF writer" if (c.get("riff") or c.get("bad")) else "wave module")
+        for k in sorted(r):
+            eng.count("wav.riff_variant", k if k not in ("data_delta", "riff_delta") else k + (">0" if r[k] > 0 else "<0"))
+        if c.get("bad"):
+            eng.count("wav.refused_file", c["bad"])
+        eng.count("wav.header_bits", c["bits"] if c["bits"] in (8, 16, 24, 32) else
+                  "odd->%d" % (8 * ((c["bits"] + 7) // 8)))
         eng.count("wav.impl_err", str(io_.get("err")))
         eng.count("wav.regime", "int-exact" if c["keep"] else "dyadic-float-exact")
 
@@ -576,12 +814,16 @@ def shrink(c):
         for d in shrink_conc(c):
             yield d
         return
+    if c["entry"] == "res":
+        for d in shrink_res(c):
+            yield d
+        return
     if c["entry"] == "chunks":
         xs = c["xs"]
         if xs:
             yield dict(c, xs=xs[:-1])
             yield dict(c, xs=xs[1:])
-            if c["fmt"] in "bhi":
+            if c["fmt"] in INTFMT:
                 for i, v in enumerate(xs):
                     if isinstance(v, int) and v not in (0, 1):
                         for nv in (1, -1, int(v / 2)):
@@ -594,8 +836,9 @@ def shrink(c):
         if c["size"] > 1:
             yield dict(c, size=c["size"] - 1)
             yield dict(c, size=(c["size"] + 1) // 2)
-        for k in ("size_route", "pad_route", "seq_route"):
-            if c.get(k) and not (k == "pad_route" and c.get("malformed")):
+        for k in ("size_route", "pad_route", "seq_route", "dfmt_route", "shape"):
+            if c.get(k) and not (k == "pad_route" and c.get("malformed")) and not (
+                    k == "seq_route" and c[k] == "endless" and len(c["xs"]) % c["size"]):
                 d = dict(c)
                 d.pop(k)
                 yield d
@@ -626,6 +869,14 @@ def shrink(c):
 
 
 def neighbours(c):
+    if c["entry"] == "res":
+        for src in c18_res.SOURCES:
+            yield dict(c, source=src)
+        yield dict(c, spy=not c.get("spy", True))
+        n = len(c["samples"])
+        for ev in (["n"] * (n + 1), ["n"] * (n + 2) + ["c"], ["n", "c"], ["c"]):
+            yield dict(c, events=ev)
+        return
     if c["entry"] == "conc":
         for i, g in enumerate(c["gens"]):
             if g["entry"] == "chunks":
@@ -656,6 +907,8 @@ def neighbours(c):
 def classify(c, io_, drv):
     if c["entry"] == "conc":
         return classify_conc(c, io_, drv)
+    if c["entry"] == "res":
+        return classify_res(c, io_, drv)
     if c["entry"] == "chunks":
         if io_.get("aliased"):
             return "chunks.%s:%s:chunk-mutated-after-yield" % (c["strategy"], c["fmt"])
@@ -705,6 +958,25 @@ def extra_checks(eng):
     ok = all(array.array(f).itemsize == WIDTH[f] for f in "bhifd")
     yield ("array-itemsizes-standard", ok, "array.array itemsize of b h i f d is not 1 2 4 4 8 on this machine")
     yield ("byteorder-known", sys.byteorder in ("little", "big"), "sys.byteorder=%r" % (sys.byteorder,))
+    ok = array.array("l").itemsize == LONG and all(struct.calcsize(p + f) == 4 for f in "lL" for p in STD_ORDERS) \
+        and all(struct.calcsize(p + f) == WIDTH[f] == array.array(f).itemsize for f in "BHIqQ" for p in ("", "@", "=", "<", ">", "!"))
+    yield ("struct-array-sizes-other-formats", ok, "sizes of B H I q Q l L are not the modelled ones")
+    # the harness' own RIFF writer writes what the wave module writes (plain files)
+    bad = []
+    for bits in (8, 16, 24, 32):
+        for ch in (1, 2):
+            c = wav_case(bits, ch, True, [1, 2, 3, 4], rate=22050)
+            if wav_file_bytes(c) != c18_res.riff_bytes(c):
+                bad.append((bits, ch))
+    yield ("own-riff-writer-equals-wave-module", not bad, "plain files differ for %r" % (bad,))
+    # the observer of the res cases sees a descriptor appear and disappear
+    path = os.path.realpath(os.path.join(_tmpdir(), "probe.bin"))
+    f = open(path, "wb")
+    seen = path in c18_res.fd_targets().values()
+    f.close()
+    gone = path not in c18_res.fd_targets().values()
+    os.remove(path)
+    yield ("proc-self-fd-observer", seen and gone, "/proc/self/fd does not show an open file (seen=%s gone=%s)" % (seen, gone))
 
 
 # ==============================================================================================
@@ -1447,3 +1719,193 @@ def generate_conc(rng, tier, scale=1):
     for _ in range((1500 if quick else 20000) * scale):
         cases.append(_conc_random(rng))
     return cases
+
+
+# ==============================================================================================
+# res cases: the file life-cycle on real handles (see c18_res.py)
+# ==============================================================================================
+def res_case(bits, channels, keep, samples, source, events, rate=8000, **kw):
+    c = {"entry": "res", "bits": bits, "channels": channels, "keep": keep, "samples": samples, "rate": rate,
+         "source": source, "events": events}
+    c.update({k: v for k, v in kw.items() if v})
+    if "spy" in kw:
+        c["spy"] = bool(kw["spy"])
+    return c
+
+
+def request_res(c):
+    data = c18_res.pcm_bytes(c["bits"], c["samples"])
+    if c.get("cut"):
+        data = data[: max(0, len(data) - c["cut"])]
+    r = {"entry": "res", "bits": c["bits"], "channels": c["channels"], "rate": c["rate"], "keep": c["keep"],
+         "data": list(data), "source": c18_res.MODEL_SRC[c["source"]], "header_ok": not c.get("bad"),
+         "pre": c18_res.n_pre(c), "events": c["events"]}
+    r["header_ok"] = True
+    r["file"] = list(c18_res.riff_bytes(c))         # the Lean RIFF reader finds header and data chunk (or refuses)
+    if r["source"] == "refused":
+        r["alt_source"] = "name"                    # should the code accept this kind of name: then as a name
+    return r
+
+
+RES_PATTERNS = ["exhaust", "exhaust+2", "exhaust+collect", "partial", "partial+collect", "fresh+collect", "nothing",
+                "one", "exhaust+collect+next"]
+
+
+def res_events(pattern, n, rng=None):
+    if pattern == "exhaust":
+        return ["n"] * (n + 1)
+    if pattern == "exhaust+2":
+        return ["n"] * (n + 3)
+    if pattern == "exhaust+collect":
+        return ["n"] * (n + 1) + ["c"]
+    if pattern == "exhaust+collect+next":
+        return ["n"] * (n + 1) + ["c", "n", "c"]
+    if pattern == "partial":
+        return ["n"] * max(0, n - 1)
+    if pattern == "partial+collect":
+        return ["n"] * (n // 2) + ["c"]
+    if pattern == "fresh+collect":
+        return ["c"]
+    if pattern == "one":
+        return ["n"]
+    return []
+
+
+def generate_res(rng, tier, scale=1):
+    quick = tier == "quick"
+    cases = []
+    if scale == 1:
+        t = 0
+        for source in c18_res.SOURCES:
+            for bits in (8, 16, 24, 32):
+                lo, hi = wav_range(bits)
+                for channels in (1, 2):
+                    for keep in (True, False):
+                        for nf in (0, 1, 3):
+                            for pat in RES_PATTERNS:
+                                t += 1
+                                if quick and t % 4 != (bits // 8 + channels) % 4:
+                                    continue
+                                n = nf * channels
+                                samples = [[lo, hi, 1, lo + 1, hi - 1, 2][i % 6] for i in range(n)]
+                                cases.append(res_case(bits, channels, keep, samples, source, res_events(pat, n),
+                                                      spy=t % 3 != 0, others=t % 2,
+                                                      keep_shape=("pos", "kw", "omit", "allkw")[t % 4]))
+        # a constructor that raises, every way of handing the file over
+        for source in c18_res.SOURCES:
+            for bad in c18_res.BADS:
+                for spy in (True, False):
+                    cases.append(res_case(16, 1, True, [1, 2], source, ["n"], bad=bad, spy=spy, others=1))
+        # truncated files: the decoding error in the middle, then more next() calls
+        for source in c18_res.SOURCES:
+            for bits in (8, 16, 24, 32):
+                for channels in (1, 2):
+                    fs = bits // 8 * channels
+                    for cut in sorted({1, fs - 1} - {0}):
+                        if fs == 1:
+                            continue
+                        lo, hi = wav_range(bits)
+                        samples = [hi, lo, 1, 2, 3, 4][: 2 * channels]
+                        for tail in ([], ["n"], ["c"], ["n", "c"]):
+                            cases.append(res_case(bits, channels, (bits + channels) % 3 == 0, samples, source,
+                                                  ["n"] * (len(samples) + 1) + tail, cut=cut, spy=len(tail) != 1))
+    for _ in range((1200 if quick else 6000) * scale):
+        bits = rng.choice([8, 16, 24, 32])
+        channels = rng.choice([1, 2])
+        nf = rng.choice([0, 1, 2, rng.randint(0, 10)])
+        n = nf * channels
+        samples = [rand_sample(rng, bits) for _ in range(n)]
+        source = rng.choice(["str", "str", "str", "fileobj", "fileobj", "fileobj_raw", "bytesio", "bytesio", "bytes",
+                             "pathlike"])
+        kw = {"spy": rng.random() < 0.6, "others": rng.choice([0, 0, 1, 2]),
+              "keep_shape": rng.choice(["pos", "kw", "omit", "allkw"]),
+              "keep_spell": rng.choice([None, None, "int", "obj", "float"]),
+              "rate": rng.choice([8000, 44100, 1, rng.randint(1, 400000)])}
+        r = rng.random()
+        if r < 0.08:
+            kw["bad"] = rng.choice(c18_res.BADS)
+        elif r < 0.25 and n and bits // 8 * channels > 1:
+            kw["cut"] = rng.randint(1, bits // 8 * channels - 1)
+        elif r < 0.33:
+            channels = rng.choice([3, 4])
+            samples = [rand_sample(rng, bits) for _ in range(nf * channels)]
+            n = len(samples)
+        elif r < 0.48:
+            kw["riff"] = rand_riff(rng, wild=rng.random() < 0.4)
+        elif r < 0.54:                                  # a header width that is no PCM width of the property
+            bits = rng.choice([12, 20, 33, 40, 64])
+            samples = [rng.randint(-100, 100) if bits > 32 else rand_sample(rng, 8 * ((bits + 7) // 8)) for _ in range(max(n, channels))]
+            n = len(samples)
+            kw["riff"] = {"post": []} if rng.random() < 0.5 else rand_riff(rng, wild=False)
+        if source == "pathlike":
+            kw["pathkind"] = rng.choice(["pathlib", "fspath"])
+        if rng.random() < 0.6:
+            ev = res_events(rng.choice(RES_PATTERNS), n)
+        else:
+            ev = [rng.choice("nnnnc") for _ in range(rng.randint(0, n + 4))]
+        cases.append(res_case(bits, channels, rng.random() < 0.5, samples, source, ev, **kw))
+    return cases
+
+
+def tally_res(eng, c, io_):
+    eng.count("res.source", c["source"])
+    eng.count("res.observer", "spy(builtins.open)+/proc/self/fd" if c.get("spy", True) else "/proc/self/fd+ResourceWarning")
+    eng.count("res.bits", c["bits"])
+    for k in sorted(c.get("riff") or {}):
+        eng.count("res.riff_variant", k)
+    eng.count("res.channels", c["channels"])
+    eng.count("res.keep_shape", c.get("keep_shape", "pos") + ("/keep" if c["keep"] else "/norm"))
+    eng.count("res.keep_spelling", c.get("keep_spell") or "bool")
+    eng.count("res.caller_other_handles", c.get("others", 0))
+    eng.count("res.file", "bad:" + c["bad"] if c.get("bad") else "truncated" if c.get("cut") else
+              "channels>2" if c["channels"] > 2 else "riff-variant" if c.get("riff") else "plain")
+    ev = c["events"]
+    n = len(c["samples"])
+    k = ev.index("c") if "c" in ev else len(ev)
+    eng.count("res.history", ("" if k else "no-next,") + ("k<=n" if k <= n else "k=n+1" if k == n + 1 else "k>n+1") +
+              (",collect" if "c" in ev else "") + (",next-after-collect" if "c" in ev and "n" in ev[ev.index("c"):] else ""))
+    eng.count("res.impl_open", io_.get("open", "?") + ("/" + io_.get("open_err", "") if io_.get("open") == "error" else ""))
+    ends = [s["obs"] for s in io_.get("trace", []) if s["ev"] == "n" and s["obs"] is not None and not isinstance(s["obs"], dict)]
+    eng.count("res.impl_end", "none" if not ends else ends[0])
+    for s in io_.get("trace", []):
+        if "fds_before_gc" in s:
+            eng.count("res.fd_kept_by_cycle_until_gc", bool(s["fds_before_gc"]))
+    if io_.get("trace"):
+        eng.count("res.fds_at_end", io_["trace"][-1]["fds"])
+    eng.count("res.fds_after_open", io_.get("after_open", {}).get("fds", "?"))
+
+
+def shrink_res(c):
+    ev, s, ch = c["events"], c["samples"], c["channels"]
+    if s:
+        yield dict(c, samples=s[:-ch])
+        yield dict(c, samples=[1] * len(s))
+    if ev:
+        yield dict(c, events=ev[:-1])
+        yield dict(c, events=ev[1:])
+        if "c" in ev:
+            yield dict(c, events=[e for e in ev if e != "c"])
+    for k in ("others", "keep_shape", "keep_spell", "pathkind", "riff", "rate"):
+        if c.get(k) and not (k == "rate" and c[k] == 8000):
+            d = dict(c)
+            d.pop(k)
+            if k == "rate":
+                d["rate"] = 8000
+            yield d
+    if not c.get("spy", True):
+        yield dict(c, spy=True)
+    if c["channels"] == 2 and len(s) % 2 == 0:
+        yield dict(c, channels=1)
+
+
+def classify_res(c, io_, drv):
+    tag = "res:%s" % c["source"]
+    if io_.get("open") == "error":
+        return tag + ":constructor-" + str(io_.get("open_err"))
+    for kind, d in c18_res.compare_res(c, io_, drv, enc, common.dec):
+        if kind == "spec":
+            return tag + ":" + ("still-open-after-exhaustion" if "still open" in d else
+                                "caller-handle-closed" if "caller" in d else
+                                "resource-warning" if "ResourceWarning" in d else
+                                "header" if "mirror" in d else "values")
+    return tag + ":model-only"
